@@ -187,6 +187,24 @@ pub fn enumerate_material_kk(wk: u8, only_bk: u8, men: &[Man], f: &mut dyn FnMut
     }
 }
 
+/// F-EP-PUSH: the positions BEFORE the double step of every en-passant constellation of F-EP (the pushed pawn back on
+/// its home square, the pusher to move), so that the double step itself is made by the engine.
+pub fn enumerate_ep_push(f_pushed: i32, extra: Option<Man>, cb: &mut dyn FnMut(&Pos)) {
+    enumerate_ep(f_pushed, extra, true, false, &mut |p: &Pos| {
+        let Some(target) = p.ep else { return };
+        let pusher = p.side.other();
+        let (to, from) = if pusher == Color::B { (target - 8, target + 8) } else { (target + 8, target - 8) };
+        let mut before = p.clone();
+        before.board[from as usize] = before.board[to as usize].take();
+        before.side = pusher;
+        before.ep = None;
+        before.halfmove = 5;
+        if before.is_legal_position() {
+            cb(&before);
+        }
+    });
+}
+
 /// F-CORNER: both kings fixed (`wk`, `bk`), `men` on all distinct squares with `men[0]` on `first_sq` (one shard),
 /// both sides to move, and the colour-mirrored twin of each position.  Fixing the kings makes three further men
 /// affordable: cornered kings without quiet moves, protected checkers, pinned defenders.
